@@ -35,7 +35,8 @@ def eval_hole(term, ti_scr, inner, fmt_scr, rep_):
         if fmt_scr is not None and t == fmt_scr:
             return (V('crate::MatrixVectorTypes::' + rep_),)
         return None
-    return Eval(leaf, lenient=False).ev(term)
+    import engine_skel as _K
+    return _K.table_ev(E.load(), leaf, term)
 
 
 def run(rep):
@@ -182,7 +183,10 @@ def run(rep):
         rep.check(okc, 'C06.rts-field', 'rts-cond', where, f'the runtime-array field template is chosen as {picks}; expected exactly for arrays of dynamic size', ok_detail='chosen iff member type is Array with size Dynamic')
         if len(hh) == 2:
             rep.check(hh[0] == want_name, 'C06.rts-field', 'rts-name', where, 'runtime-array field name is not the member name', ok_detail='name identity')
-            scr2 = collect_scrutinees(hh[1])
+            # the template is chosen exactly for arrays of dynamic size ('rts-cond' above): its holes are read under that fact (a record built
+            # first - `StructField { ty: if rts { element } else { member }, is_rts_array }` - carries both alternatives)
+            facts = [('is', ti, 'naga::TypeInner::Array'), ('is', ('vf', ti, 'naga::TypeInner::Array', 'size'), 'naga::ArraySize::Dynamic')]
+            scr2 = collect_scrutinees(E.prune(hh[1], facts, []) if okc else hh[1])
             t2 = scr2.get('TypeInner', [])
             m2 = scr2.get('MatrixVectorTypes', [])
             want_base = ('f', ('idx', ti[1][1], ('vf', ti, 'naga::TypeInner::Array', 'base')), 'inner')
